@@ -26,7 +26,17 @@ open Httpcache
 
 /-- the identifier under which a response is stored -/
 def storeId (cfg : Cfg) (key : Str) (reqH respH : Header) : Str :=
-  makeVaryKey key (normalizeVary cfg.normQ (joinWith [',', ' '] (Header.values (removeHopByHop respH) sVary)) reqH)
+  makeVaryKey key (normalizeVary cfg.normQ
+    (if varyHasWildcard (joinWith [',', ' '] (Header.values (removeHopByHop respH) sVary)) then ['*']
+     else joinWith [',', ' '] (Header.values (removeHopByHop respH) sVary)) reqH)
+
+/-- every Vary value with a "*" member, however spelled and whatever else it names, is stored under one
+    identifier per URL: such responses never match a request, so they are one variant -/
+theorem wildcard_variants_share_an_id (cfg : Cfg) (key : Str) (reqH respH respH' : Header)
+    (h : varyHasWildcard (joinWith [',', ' '] (Header.values (removeHopByHop respH) sVary)) = true)
+    (h' : varyHasWildcard (joinWith [',', ' '] (Header.values (removeHopByHop respH') sVary)) = true) :
+    storeId cfg key reqH respH = storeId cfg key reqH respH' := by
+  unfold storeId; simp only [h, h', ↓reduceIte]
 
 /-- The entry key StoreResponse writes is `storeId`: a function of the URL key, the response's Vary
     lines and the request's normalised selecting values only — not of time, body, or how often the
@@ -37,8 +47,9 @@ theorem written_keys_determined (cfg : Cfg) (reqH : Header) (r : Resp) (b : Bool
     (h : Run (storeResponse cfg reqH r b key refs t1 t2 ri (fun r => .ret (.resp r))) tr res) :
     (∀ id e ok, Step.setEntry id e ok ∈ tr → id = storeId cfg key reqH r.header) ∧
     (∀ k l ok, Step.setRefs k l ok ∈ tr → k = key) := by
+  unfold storeId
   unfold storeResponse at h
-  simp only [] at h
+  simp only [respWith] at h
   split at h
   · cases h; exact ⟨(fun _ _ _ hm => by cases hm), (fun _ _ _ hm => by cases hm)⟩
   · cases h with
